@@ -217,9 +217,9 @@ def analyse_dimap(obs: Obs, prog):
         if ev.closure_of(cm) is not None:
             rr = ev.apply(cm, [P("$a"), P("$r")], module=D.module, cls=D)
             okc = rr == ("call", POST, (P("$a"), ("call", PRE, (("star", P("$a")),), ()), P("$r")), ())
-            obs.add({"C15", "C08"}, "DELEG-ROLE", "Dimap.edit/closed_mapping", okc, derived=rr, expected="post(args, pre(*args), retval) - pre recomputed on the NEW primals", where=w)
+            obs.add({"C15", "C08", "C01", "C05"}, "DELEG-ROLE", "Dimap.edit/closed_mapping", okc, derived=rr, expected="post(args, pre(*args), retval) - pre recomputed on the NEW primals", where=w)
         else:
-            obs.add({"C15", "C08"}, "DELEG-ROLE", "Dimap.edit/closed_mapping", False, derived=cm, expected="a local closure", where=w)
+            obs.add({"C15", "C08", "C01", "C05"}, "DELEG-ROLE", "Dimap.edit/closed_mapping", False, derived=cm, expected="a local closure", where=w)
     obs.add({"C15", "C01", "C05"}, "TRACE-ARGS", "Dimap.edit", f.get("args") == pr, derived=f.get("args"), expected="Diff.tree_primal(argdiffs)", where=w)
     obs.add({"C15", "C01"}, "TRACE-RETVAL", "Dimap.edit/retval", f.get("retval") == dcall("tree_primal", rd), derived=f.get("retval"), expected="primal of the returned retdiff", where=w)
     obs.add({"C15", "C05"}, "WEIGHT-UPD", "Dimap.edit/weight", q[1] == mk_proj(E, 1) and f.get("inner") == mk_proj(E, 0), derived=q[1], expected="inner weight; inner trace", where=w)
